@@ -152,3 +152,35 @@ func VerifH_C20_map_concurrent() {
 	v, ok := m.Load("k")
 	verif.Assert(ok && v == 7, "and is still there afterwards")
 }
+
+// VerifH_C20_map_delete_during_promotion: two keys live only in the dirty half; one goroutine
+// walks the map (which promotes the dirty half) while another deletes one key; both have
+// taken their lock-free snapshot and queue for the lock (the harness holds it to park them).
+// Afterwards the deleted key is gone and the other key is still there (C04 relies on this for
+// the client table).
+func VerifH_C20_map_delete_during_promotion() {
+	m := &Map[string, int]{}
+	m.Store("a", 1)
+	m.Store("b", 2)
+	walkFirst := verif.Bool()
+	var wg sync.WaitGroup
+	walk := func() { defer wg.Done(); m.Len() }
+	del := func() { defer wg.Done(); m.Delete("a") }
+	m.mu.Lock()
+	wg.Add(2)
+	if walkFirst {
+		go walk()
+		go del()
+	} else {
+		go del()
+		go walk()
+	}
+	verif.Settle()
+	m.mu.Unlock()
+	wg.Wait()
+	_, okA := m.Load("a")
+	vB, okB := m.Load("b")
+	verif.Assert(!okA, "the deleted key is gone")
+	verif.Assert(okB && vB == 2, "the other key is still there")
+	verif.Assert(m.Len() == 1, "and the map holds exactly it")
+}
